@@ -68,7 +68,9 @@ def damage_body(body, kind, rng, others, pristine):
         "crypttext_hash_tree": (o["crypttext_hash_tree"], o["block_hashes"]),
         "block_hashes": (o["block_hashes"], o["share_hashes"]),
         "share_hashes": (o["share_hashes"], o["uri_extension"]),
-        "uri_extension": (o["uri_extension"], end),
+        # the UEB itself; its length word is left alone (a larger length is clipped by the server at the
+        # end of the share and yields the same UEB: harmless and not covered by any hash)
+        "uri_extension": (o["uri_extension"] + o["_fieldsize"], end),
         "version": (0, 4),
     }
     where = None
